@@ -762,6 +762,31 @@ func c19TransformCase(ctx *Ctx, v cty.Value, wlog []c19Visit) {
 		ctx.Add("walk.trans", encLog(log)+" "+outcome, orc.enc(), schedOf(log, first), mode,
 			"(tcb ("+encRules(enter)+") ("+encRules(exit)+"))", vw)
 		ctx.Tag("transform:" + mode)
+		if mode == "full" {
+			// d19b (C19.transform_calls_properly_nested): whatever the transformer does, Exit(p) is only called for
+			// the most recent Enter(p) still open; a successful run leaves nothing open
+			var st []string
+			nested := true
+			for _, e := range log {
+				pk := encPath(e.p)
+				if e.kind == "e" {
+					st = append(st, pk)
+				} else if len(st) == 0 || st[len(st)-1] != pk {
+					nested = false
+					break
+				} else {
+					st = st[:len(st)-1]
+				}
+			}
+			if nested && strings.HasPrefix(outcome, "ok ") && len(st) != 0 {
+				nested = false
+			}
+			ctx.Eval("tnest "+vw+" "+encRules(enter)+" "+encRules(exit), len(log) > 2)
+			if !nested {
+				ctx.Fail(Failure{Site: "transform-nesting", Sig: "not-nested", What: "the Enter / Exit calls of TransformWithTransformer are not properly nested",
+					Input: vw + " (" + encRules(enter) + ") (" + encRules(exit) + ")", GoLit: lit + " ; Enter " + litRules(enter) + " ; Exit " + litRules(exit), Outcome: encLog(log) + " " + outcome})
+			}
+		}
 		return res, outcome, log
 	}
 
